@@ -350,7 +350,7 @@ func ruleC01Dispatch(c *Ctx) {
 			continue
 		}
 		fl, rl := li.FeedLoops[0], li.ReadLoops[0]
-		if fl.Descending != rl.Descending {
+		if fl.Descending != rl.Descending && c.loopIndexesList(rl) {
 			c.violate("C01.dispatch", "list:"+lit+":direction", rl.L.Head.Instrs[0].Pos(), name, "the "+lit+" list is requested and read back in opposite directions")
 		}
 		cnt := func(l *scanLoop, callee *ssa.Function) countRange {
@@ -455,8 +455,7 @@ func (c *Ctx) isLoopElement(v ssa.Value, l *scanLoop) bool {
 			}
 			v = x.X
 		case *ssa.IndexAddr:
-			u, ok := x.X.(*ssa.UnOp)
-			if !ok || c.cellOf(u.X) != l.Cell {
+			if id := c.listID(x.X); id == nil || id != l.Var {
 				return false
 			}
 			return c.isLoopIndex(x.Index, l)
@@ -935,4 +934,26 @@ func (c *Ctx) chanParam(v ssa.Value) (*ssa.Parameter, bool) {
 		}
 	}
 	return nil, false
+}
+
+// loopIndexesList: the loop body reads elements of the list it counts over
+// (only then does the direction of the loop matter: objects come back in
+// request order whatever index the counting loop runs over).
+func (c *Ctx) loopIndexesList(l *scanLoop) bool {
+	found := false
+	for b := range l.L.Blocks {
+		for _, in := range b.Instrs {
+			switch x := in.(type) {
+			case *ssa.IndexAddr:
+				if id := c.listID(x.X); id != nil && id == l.Var {
+					found = true
+				}
+			case *ssa.Index:
+				if id := c.listID(x.X); id != nil && id == l.Var {
+					found = true
+				}
+			}
+		}
+	}
+	return found
 }
